@@ -41,6 +41,7 @@ import (
 	"sort"
 	"strings"
 	"sync"
+	"sync/atomic"
 	"testing"
 	"time"
 
@@ -90,7 +91,9 @@ type world interface {
 	// prepare runs single-threaded before each repetition.
 	prepare(rep int)
 	// run executes one op on the calling (role) goroutine.
-	run(rep int, roleIdx int, role *Role, op *Op)
+	// call identifies the operation (repetition, role, position): the doubles derive
+	// their scripted faults from it.
+	run(rep int, roleIdx int, role *Role, op *Op, call uint64)
 	// finish runs single-threaded after all roles of the repetition returned:
 	// waits for goroutines started by vouch.  Returns "" or a harness problem.
 	finish(rep int) string
@@ -237,7 +240,7 @@ func nontrivial(sc *Scenario) bool {
 }
 
 func labels(sc *Scenario) []string {
-	l := []string{"service=" + sc.Service, fmt.Sprintf("roles=%d", len(sc.Roles))}
+	l := []string{"service=" + sc.Service, fmt.Sprintf("roles=%d", len(sc.Roles)), fmt.Sprintf("fault-rate=%d%%", sc.P["frate"])}
 	kinds := map[string]bool{}
 	for _, r := range sc.Roles {
 		if !kinds[r.Kind] {
@@ -315,37 +318,71 @@ func execute(t ev.TB, sc *Scenario, reps int) {
 		w.prepare(rep)
 		start := make(chan struct{})
 		var wg sync.WaitGroup
-		panics := make([]string, len(sc.Roles))
+		// A panic in a role is recovered (and reported); vouch may have been holding a
+		// lock at that point, so the rest of the scenario cannot be trusted to return.
+		panics := make([]atomic.Pointer[string], len(sc.Roles))
 		for i := range sc.Roles {
 			wg.Add(1)
 			go func(i int) {
 				defer wg.Done()
 				defer func() {
 					if r := recover(); r != nil {
-						panics[i] = fmt.Sprintf("%v\n%s", r, debug.Stack())
+						p := fmt.Sprintf("%v\n%s", r, debug.Stack())
+						panics[i].Store(&p)
 					}
 				}()
 				role := &sc.Roles[i]
 				<-start
 				for j := range role.Ops {
-					w.run(rep, i, role, &role.Ops[j])
+					w.run(rep, i, role, &role.Ops[j], uint64(rep+1)<<24|uint64(i+1)<<12|uint64(j+1))
 				}
 			}(i)
 		}
 		close(start)
 		done := make(chan struct{})
 		go func() { wg.Wait(); close(done) }()
-		select {
-		case <-done:
-		case <-time.After(watchdog):
-			buf := make([]byte, 1<<20)
-			buf = buf[:runtime.Stack(buf, true)]
-			t.Fatalf("harness: watchdog: roles of repetition %d did not return within %s\n%s", rep, watchdog, buf)
-		}
-		for i, p := range panics {
-			if p != "" {
-				ev.Violation(t, "panic:"+topVouchFrame(p), sc, "role %d (%s) panicked in repetition %d: %s", i, sc.Roles[i].Kind, rep, p)
+		panicked := func() bool {
+			for i := range panics {
+				if panics[i].Load() != nil {
+					return true
+				}
 			}
+			return false
+		}
+		began := time.Now()
+		var sincePanic time.Time
+		tick := time.NewTicker(50 * time.Millisecond)
+	wait:
+		for {
+			select {
+			case <-done:
+				break wait
+			case <-tick.C:
+				if panicked() {
+					if sincePanic.IsZero() {
+						sincePanic = time.Now()
+					} else if time.Since(sincePanic) > 500*time.Millisecond {
+						break wait // the other roles are stuck behind what the panic left behind
+					}
+				}
+				if time.Since(began) > watchdog {
+					buf := make([]byte, 1<<20)
+					buf = buf[:runtime.Stack(buf, true)]
+					tick.Stop()
+					t.Fatalf("harness: watchdog: roles of repetition %d did not return within %s\n%s", rep, watchdog, buf)
+				}
+			}
+		}
+		tick.Stop()
+		if panicked() {
+			for i := range panics {
+				if p := panics[i].Load(); p != nil {
+					ev.Violation(t, "panic:"+topVouchFrame(*p), sc, "role %d (%s) panicked in repetition %d: %s", i, sc.Roles[i].Kind, rep, *p)
+				}
+			}
+			// (a listed open finding: counted) the instance is in an undefined state, give the scenario up
+			ev.Label("scenario-abandoned-after-panic")
+			return
 		}
 		if why := w.finish(rep); why != "" {
 			t.Fatalf("harness: %s (repetition %d)", why, rep)
